@@ -34,5 +34,5 @@ For each change i (1..{n}) write into {wt}/out/m<i>/ :
                   "files": [...], "tests_pass": true/false, "demo_clean": "PASS", "demo_mutant": "FAIL"}}
 Work one change at a time: edit, run demo on changed tree, `git diff > out/m<i>/patch.diff`, `git checkout -- rsome`, run demo
 on clean tree, then re-apply to run the test-suite (you may run the suite once per change; run them sequentially). Leave the
-worktree clean (git checkout -- rsome) when done; the out/ directory is untracked and stays. Report in your final message, per
+worktree clean (git checkout -- rsome) when done; NEVER use `git stash` (the stash is shared with other worktrees); the out/ directory is untracked and stays. Report in your final message, per
 change: the summary, what it needs to manifest, whether tests passed, demo results.""")
